@@ -9,6 +9,7 @@ merged), and the answer of every access of every history is compared with the ea
 Because the model's answer does not depend on the history, this decides both halves of the property: the values are
 the eager ones, and no access changes what a later access returns.
 """
+import sys
 from operator import attrgetter
 
 from vf.core import Check
@@ -296,17 +297,19 @@ class C13(Check):
     ID = 'C13'
     LEVEL = 'model_checking'
     ENGINE = 'HIST'
-    RULE = ('cases = (source table, pipeline, output row): 10 sources (dense lists, dense lists with a Categorical column, sparse '
+    RULE = ('cases = (source table, pipeline, output row): 13 sources (dense lists, dense lists with a Categorical column, sparse '
             'dicts with str / int keys / a Categorical entry, ARFF dense, ARFF sparse with default-zero entries, ARFF dense with '
-            'mixed quoting, LazyDense / LazySparse rows wired like ArffReader but with non-idempotent encoders) x every pipeline of <=2 (thorough <=3) stages from the stage alphabet valid for the table shape '
+            'mixed quoting, LazyDense / LazySparse rows wired like ArffReader but with non-idempotent encoders and "?" / "" cells, a LazyDense table with another header order, ARFF dense / sparse tables whose cells are the values the lazy rows special-case: empty string quoted and bare, ?, quoted ?, a nominal level named ?, 0, None in numeric / string / nominal attributes) x every pipeline of <=2 (thorough <=3) stages from the stage alphabet valid for the table shape '
             '(HeadRows list / mapping, EncodeRows list / dict by index / dict by header, DropRows cols by index / by name / row '
             'predicate by index / by name / missing, LabelRows by index / by name with c,r,m, EncodeCatRows onehot / '
             'onehot_tuple / string) x every output row, simplest first; inside a case EVERY access history of length <=2 over the '
             'full access alphabet of that row (every position, every header name / key, list, len, ==, !=, copy, items, keys, '
             'iter, feats (list, every position / key, len, keys, ==), label, tipe, labeled, and reading the '
             'neighbouring row) and every history of length 3 over one representative access per kind is executed on a fresh build of '
-            'the real pipeline and every answer is compared with the eager model.  A case is non-trivial when the row object is a '
-            'lazy view (not a list/dict) or an EncodeCatRows stage rewrote it')
+            'the real pipeline and every answer is compared with the eager model.  PLUS re-use cases = (table 1, table 2, pipeline valid on both): ONE set of real filter objects is applied to table 1, to a different table 2 '
+            '(unheaded / headed / other header order / other names / sparse keyed by name or by column number / the same table for the Categorical ones) and to table 1 again, '
+            'and after every application every access of the full alphabet on every output row is compared with the eager model of that table.  '
+            'A case is non-trivial when the row object is a lazy view (not a list/dict) or an EncodeCatRows stage rewrote it; every re-use case (>=1 stage) is non-trivial')
     ASSUMPTIONS = [
         'only valid keys are accessed (positions 0..len-1, header names / keys present in the eager row); negative positions, dropped or unknown names are not constrained',
         'LabelRows is the last stage of a pipeline (as everywhere in coba); feats is accessed by position / key, iteration, len, == only (by-header access on feats is not demanded)',
@@ -316,17 +319,39 @@ class C13(Check):
         'order of keys / items of sparse rows and the container type returned by copy() are not constrained; values are compared deeply including their types',
         'row.headers itself is not read by the check (it is exercised through by-name stages and row[name])',
         'a row predicate is evaluated by DropRows on the upstream row; predicates are equality tests on one cell or attrgetter("missing") on ARFF rows',
+        'ARFF cell conventions are coba\'s: ? is missing (None) unless the nominal attribute declares a level ?, an empty cell is "" in a string attribute and None in a numeric / nominal one; an encoder that accepts "?" or "" is applied to it',
+        're-use cases contain only stages whose parameters do not depend on one table\'s cells (no cell-equality row predicates); a re-use answer is a violation only if fresh filter objects give the eager answer for the same access',
+        '"RuntimeError: generator ignored GeneratorExit" raised inside LazyDense._enc_all when an iteration is abandoned at a ? / "" cell is reported by CPython as unraisable, changes no value and is only counted',
     ]
     TECHNIQUE = ('explicit-state exploration of access histories on one real row object (replay from scratch, no state merging) x '
                  'bounded-exhaustive enumeration of filter pipelines, against an eager plain list/dict reference model')
-    LEVEL_TEXT = ('For every pipeline of <=2 (thorough <=3) row filters over 10 small source tables and every output row, every access '
+    LEVEL_TEXT = ('For every pipeline of <=2 (thorough <=3) row filters over 13 small source tables and every output row, every access '
                   'history of length <=2 over the full access alphabet and of length 3 over one access per kind is executed on freshly '
                   'built real row objects; every answer is compared with the eager table, so both "values equal the eager ones" and '
-                  '"no access changes later answers" are decided for every history below the bound.')
+                  '"no access changes later answers" are decided for every history below the bound; filter objects are additionally re-used across two different tables (table 1, table 2, table 1) and every answer compared with the eager table of its own table.')
     LEVEL_NOTE = ('small-scope: tables of 2-3 rows x 3 columns, <=3 stages, histories <=3; only valid keys; LabelRows last; '
                   'EncodeCatRows on materialised rows only')
-    MIN_NONTRIVIAL = {'quick': 2500, 'thorough': 25000}
+    MIN_NONTRIVIAL = {'quick': 8000, 'thorough': 80000}
     CASE_TIMEOUT = 60
+
+    # -------------------------------------------------------------- harness hygiene
+    _genexit = 0
+
+    def setup(self, tier):
+        # LazyDense._enc_all yields inside a bare try/except: closing the generator at a '?' / '' cell (a comparison that
+        # stops early there) makes CPython report "RuntimeError: generator ignored GeneratorExit" through the unraisable hook.
+        # No value is affected, so it is no C13 violation; it is counted (counter unraisable_generator_ignored_GeneratorExit)
+        # instead of flooding stderr.  Every other unraisable exception is still printed.
+        old = sys.unraisablehook
+
+        def hook(u, _old=old):
+            if isinstance(u.exc_value, RuntimeError) and 'generator ignored GeneratorExit' in str(u.exc_value):
+                C13._genexit += 1
+                return
+            _old(u)
+        if getattr(old, '_c13', False) is False:
+            hook._c13 = True
+            sys.unraisablehook = hook
 
     # -------------------------------------------------------------- enumeration
     def pipelines(self, tier):
@@ -374,7 +399,14 @@ class C13(Check):
 
     # -------------------------------------------------------------- one case
     def run_case(self, case, acc):
-        if 'reuse' in case: return self.run_reuse(case, acc)
+        n0 = C13._genexit
+        try:
+            if 'reuse' in case: return self.run_reuse(case, acc)
+            return self._run_case(case, acc)
+        finally:
+            if C13._genexit != n0: acc.count('unraisable_generator_ignored_GeneratorExit', C13._genexit - n0)
+
+    def _run_case(self, case, acc):
         src, stages, r = case['src'], case['stages'], case['row']
         plan = Plan(src, stages)
         t = plan.final
